@@ -5,6 +5,9 @@
         open spec fn parse_ok(b: Seq<u8>, v: Self) -> bool {
             match v {
                 Self::CompletionData(x) => b.len() >= 2 && b[0] == 6 && b[1] == 15 && zvt_builder::tid_of(x) == 3 /* packets::CompletionData */ && zvt_builder::zd_ok_of(b, x),
+                // a variant the frozen reply table does not know can never be a correct result
+                #[allow(unreachable_patterns)]
+                _ => false,
             }
         }
         /// the command's reply set
@@ -21,6 +24,9 @@
                 Self::IntermediateStatusInformation(x) => b.len() >= 2 && b[0] == 4 && b[1] == 255 && zvt_builder::tid_of(x) == 2 /* packets::IntermediateStatusInformation */ && zvt_builder::zd_ok_of(b, x),
                 Self::StatusInformation(x) => b.len() >= 2 && b[0] == 4 && b[1] == 15 && zvt_builder::tid_of(x) == 1 /* packets::StatusInformation */ && zvt_builder::zd_ok_of(b, x),
                 Self::Abort(x) => b.len() >= 2 && b[0] == 6 && b[1] == 30 && zvt_builder::tid_of(x) == 4 /* packets::Abort */ && zvt_builder::zd_ok_of(b, x),
+                // a variant the frozen reply table does not know can never be a correct result
+                #[allow(unreachable_patterns)]
+                _ => false,
             }
         }
         /// the command's reply set
@@ -39,6 +45,9 @@
                 Self::PrintTextBlock(x) => b.len() >= 2 && b[0] == 6 && b[1] == 211 && zvt_builder::tid_of(x) == 7 /* packets::PrintTextBlock */ && zvt_builder::zd_ok_of(b, x),
                 Self::CompletionData(x) => b.len() >= 2 && b[0] == 6 && b[1] == 15 && zvt_builder::tid_of(x) == 3 /* packets::CompletionData */ && zvt_builder::zd_ok_of(b, x),
                 Self::Abort(x) => b.len() >= 2 && b[0] == 6 && b[1] == 30 && zvt_builder::tid_of(x) == 4 /* packets::Abort */ && zvt_builder::zd_ok_of(b, x),
+                // a variant the frozen reply table does not know can never be a correct result
+                #[allow(unreachable_patterns)]
+                _ => false,
             }
         }
         /// the command's reply set
@@ -54,6 +63,9 @@
             match v {
                 Self::CompletionData(x) => b.len() >= 2 && b[0] == 6 && b[1] == 15 && zvt_builder::tid_of(x) == 3 /* packets::CompletionData */ && zvt_builder::zd_ok_of(b, x),
                 Self::Abort(x) => b.len() >= 2 && b[0] == 6 && b[1] == 30 && zvt_builder::tid_of(x) == 4 /* packets::Abort */ && zvt_builder::zd_ok_of(b, x),
+                // a variant the frozen reply table does not know can never be a correct result
+                #[allow(unreachable_patterns)]
+                _ => false,
             }
         }
         /// the command's reply set
@@ -68,6 +80,9 @@
         open spec fn parse_ok(b: Seq<u8>, v: Self) -> bool {
             match v {
                 Self::CompletionData(x) => b.len() >= 2 && b[0] == 6 && b[1] == 15 && zvt_builder::tid_of(x) == 3 /* packets::CompletionData */ && zvt_builder::zd_ok_of(b, x),
+                // a variant the frozen reply table does not know can never be a correct result
+                #[allow(unreachable_patterns)]
+                _ => false,
             }
         }
         /// the command's reply set
@@ -87,6 +102,9 @@
                 Self::PrintTextBlock(x) => b.len() >= 2 && b[0] == 6 && b[1] == 211 && zvt_builder::tid_of(x) == 7 /* packets::PrintTextBlock */ && zvt_builder::zd_ok_of(b, x),
                 Self::CompletionData(x) => b.len() >= 2 && b[0] == 6 && b[1] == 15 && zvt_builder::tid_of(x) == 3 /* packets::CompletionData */ && zvt_builder::zd_ok_of(b, x),
                 Self::Abort(x) => b.len() >= 2 && b[0] == 6 && b[1] == 30 && zvt_builder::tid_of(x) == 4 /* packets::Abort */ && zvt_builder::zd_ok_of(b, x),
+                // a variant the frozen reply table does not know can never be a correct result
+                #[allow(unreachable_patterns)]
+                _ => false,
             }
         }
         /// the command's reply set
@@ -106,6 +124,9 @@
                 Self::PrintTextBlock(x) => b.len() >= 2 && b[0] == 6 && b[1] == 211 && zvt_builder::tid_of(x) == 7 /* packets::PrintTextBlock */ && zvt_builder::zd_ok_of(b, x),
                 Self::CompletionData(x) => b.len() >= 2 && b[0] == 6 && b[1] == 15 && zvt_builder::tid_of(x) == 3 /* packets::CompletionData */ && zvt_builder::zd_ok_of(b, x),
                 Self::Abort(x) => b.len() >= 2 && b[0] == 6 && b[1] == 30 && zvt_builder::tid_of(x) == 5 /* packets::PartialReversalAbort */ && zvt_builder::zd_ok_of(b, x),
+                // a variant the frozen reply table does not know can never be a correct result
+                #[allow(unreachable_patterns)]
+                _ => false,
             }
         }
         /// the command's reply set
@@ -125,6 +146,9 @@
                 Self::PrintTextBlock(x) => b.len() >= 2 && b[0] == 6 && b[1] == 211 && zvt_builder::tid_of(x) == 7 /* packets::PrintTextBlock */ && zvt_builder::zd_ok_of(b, x),
                 Self::CompletionData(x) => b.len() >= 2 && b[0] == 6 && b[1] == 15 && zvt_builder::tid_of(x) == 3 /* packets::CompletionData */ && zvt_builder::zd_ok_of(b, x),
                 Self::Abort(x) => b.len() >= 2 && b[0] == 6 && b[1] == 30 && zvt_builder::tid_of(x) == 4 /* packets::Abort */ && zvt_builder::zd_ok_of(b, x),
+                // a variant the frozen reply table does not know can never be a correct result
+                #[allow(unreachable_patterns)]
+                _ => false,
             }
         }
         /// the command's reply set
@@ -144,6 +168,9 @@
                 Self::PrintTextBlock(x) => b.len() >= 2 && b[0] == 6 && b[1] == 211 && zvt_builder::tid_of(x) == 7 /* packets::PrintTextBlock */ && zvt_builder::zd_ok_of(b, x),
                 Self::CompletionData(x) => b.len() >= 2 && b[0] == 6 && b[1] == 15 && zvt_builder::tid_of(x) == 3 /* packets::CompletionData */ && zvt_builder::zd_ok_of(b, x),
                 Self::PartialReversalAbort(x) => b.len() >= 2 && b[0] == 6 && b[1] == 30 && zvt_builder::tid_of(x) == 5 /* packets::PartialReversalAbort */ && zvt_builder::zd_ok_of(b, x),
+                // a variant the frozen reply table does not know can never be a correct result
+                #[allow(unreachable_patterns)]
+                _ => false,
             }
         }
         /// the command's reply set
@@ -160,6 +187,9 @@
                 Self::PrintLine(x) => b.len() >= 2 && b[0] == 6 && b[1] == 209 && zvt_builder::tid_of(x) == 6 /* packets::PrintLine */ && zvt_builder::zd_ok_of(b, x),
                 Self::PrintTextBlock(x) => b.len() >= 2 && b[0] == 6 && b[1] == 211 && zvt_builder::tid_of(x) == 7 /* packets::PrintTextBlock */ && zvt_builder::zd_ok_of(b, x),
                 Self::CompletionData(x) => b.len() >= 2 && b[0] == 6 && b[1] == 15 && zvt_builder::tid_of(x) == 3 /* packets::CompletionData */ && zvt_builder::zd_ok_of(b, x),
+                // a variant the frozen reply table does not know can never be a correct result
+                #[allow(unreachable_patterns)]
+                _ => false,
             }
         }
         /// the command's reply set
@@ -174,6 +204,9 @@
         open spec fn parse_ok(b: Seq<u8>, v: Self) -> bool {
             match v {
                 Self::CompletionData(x) => b.len() >= 2 && b[0] == 6 && b[1] == 15 && zvt_builder::tid_of(x) == 3 /* packets::CompletionData */ && zvt_builder::zd_ok_of(b, x),
+                // a variant the frozen reply table does not know can never be a correct result
+                #[allow(unreachable_patterns)]
+                _ => false,
             }
         }
         /// the command's reply set
@@ -191,6 +224,9 @@
                 Self::PrintLine(x) => b.len() >= 2 && b[0] == 6 && b[1] == 209 && zvt_builder::tid_of(x) == 6 /* packets::PrintLine */ && zvt_builder::zd_ok_of(b, x),
                 Self::PrintTextBlock(x) => b.len() >= 2 && b[0] == 6 && b[1] == 211 && zvt_builder::tid_of(x) == 7 /* packets::PrintTextBlock */ && zvt_builder::zd_ok_of(b, x),
                 Self::CompletionData(x) => b.len() >= 2 && b[0] == 6 && b[1] == 15 && zvt_builder::tid_of(x) == 3 /* packets::CompletionData */ && zvt_builder::zd_ok_of(b, x),
+                // a variant the frozen reply table does not know can never be a correct result
+                #[allow(unreachable_patterns)]
+                _ => false,
             }
         }
         /// the command's reply set
